@@ -683,7 +683,14 @@ func checkC11(e *Env, r *Report) {
 		results := [][]string{}
 		resorted := [][]string{}
 		for variant := 0; variant < 3; variant++ {
-			rs := mk()
+			// free-standing comment lines keep the place they are written at: they are not part of the
+			// order, a paragraph is permuted without them
+			rs := aa.Rules{}
+			for _, x := range mk() {
+				if x != nil && x.Kind() != aa.COMMENT {
+					rs = append(rs, x)
+				}
+			}
 			switch variant {
 			case 1:
 				slices.Reverse(rs)
@@ -736,6 +743,18 @@ func strOrderEvents(e *Env, r *Report, rng *rand.Rand) []any {
 			s = append(s, strCharNames[rng.Intn(len(strCharNames))])
 		}
 		strs = append(strs, s)
+	}
+	{
+		seenS := map[string]bool{}
+		uniq := [][]string{}
+		for _, s := range strs {
+			k := strings.Join(s, " ")
+			if !seenS[k] {
+				seenS[k] = true
+				uniq = append(uniq, s)
+			}
+		}
+		strs = uniq
 	}
 	conc := func(s []string) string {
 		var b strings.Builder
